@@ -22,6 +22,7 @@ mod c16;
 mod c17;
 mod c18;
 mod c19;
+mod randsig;
 mod sim;
 mod util;
 mod world;
